@@ -78,6 +78,10 @@ func c09Run(s *c09Scn, segName string) verdict {
 	}
 
 	hello := simdev.HelloXML(caps, s.Sid, s.Prefix, s.Layout != "oneline", s.Layout == "decl")
+	if s.Layout == "wrapped" {
+		hello = simdev.HelloXMLWrapped(caps, s.Sid, s.Prefix)
+	}
+
 	if s.Tail == "nl" {
 		hello += "\n"
 	}
